@@ -4,6 +4,7 @@
    Model/Registry.v that `step` runs for the operations Dup, DcReplace, Replace; `late` is any validation a subclass
    performs after super().__post_init__() (DOk = the call returned; DLate = a copy was rejected on the way). *)
 From Oak Require Import Model.Registry Proofs.RegistryProofs.
+From Oak Require Import Model.Equality Spec.CEq Proofs.EncodeSound Proofs.RegistryReify.
 
 (* ---- duplicate: every node of the copy is a new object registered under its own id ... ---- *)
 Theorem C14_dup_fresh : forall H ct late fuel s a s' a', Inv0 s -> dup H ct late fuel s a = DOk s' a' ->
@@ -24,9 +25,48 @@ Proof. exact dup_spec. Qed.
 Example C14_ex_dup : exists s' a', dup ex_H ex_ct no_late (length (heap ex_state)) ex_state 2 = DOk s' a'
   /\ tree_of s' a' = [5; 3; 4] /\ tree_of ex_state 2 = [2; 0; 1].
 Proof. eexists _, _. split; [vm_compute; reflexivity|split; vm_compute; reflexivity]. Qed.
-(* C14_dup_eq (the copy is == to the original with equal content_id, properties and origins at every position) is
-   NOT proved in Coq: it is compared on every Dup of every history by the correspondence run (observables
-   new-node and copy). *)
+(* ---- C14_dup_eq: duplicate() returns a tree == to the original with equal content_id, property values and origin at
+        every position.  `reify_st s a` (Model/Registry.v) is the tree of Model/Node.v under address a (design 2.2);
+        `strip` erases the object identities (= `retag (fun _ => 0) id` of Proofs/EncodeSound.v).
+        (1) the copy IS the original's tree up to object identity: class, origin, every property value (comparable or
+            not, init or not) and the shape of every child field agree at every position; hence
+        (2) it is content-equal (`ceq`, Spec/CEq.v), (3) has the same tree-level content_id (Model/Encode.v),
+        (4) the same origins in pre-order (`all_origins`, Model/Equality.v), (5) is well-formed iff the original is, and
+        (6) on a well-formed original ASTNode.__eq__ (`eqn`, Model/Equality.v) answers True in both directions ---- *)
+Theorem C14_dup_same_tree : forall H ct late fuel s a s' a', Inv0 s -> dup H ct late fuel s a = DOk s' a' ->
+  strip (reify_st s' a') = strip (reify_st s a).
+Proof. exact dup_same_tree. Qed.
+Theorem C14_dup_eq : forall H ct late fuel s a s' a', Inv0 s -> dup H ct late fuel s a = DOk s' a' ->
+  let o := reify_st s a in let n := reify_st s' a' in
+  strip n = strip o /\ ceq ct o n /\ content_id H ct current n = content_id H ct current o /\
+  all_origins n = all_origins o /\ wf_node ct n = wf_node ct o /\
+  (wf_node ct o = true -> eqn H ct current n o = EqTrue /\ eqn H ct current o n = EqTrue).
+Proof. exact dup_eq. Qed.
+(* the original's own tree is untouched by the call *)
+Theorem C14_dup_keeps_original : forall H ct late fuel s a s' a', Inv0 s -> a < length (heap s) ->
+  dup H ct late fuel s a = DOk s' a' -> reify_st s' a = reify_st s a.
+Proof. exact dup_keeps_original. Qed.
+(* the content_id FIELD of the machine's cells (what the run compares with pyoak's node.content_id) is the tree-level
+   content_id of the reified tree, in every state of every history; so the copy's field equals the original's *)
+Theorem C14_coh_reachable : forall H ct late fx n l, coh H ct (heap (run H ct late fx (init_st n) l)).
+Proof. intros H ct late fx n l. exact (run_coh H ct late fx l _ (coh_init H ct n)). Qed.
+Theorem C14_cid_is_content_id : forall H ct s, hwf (heap s) -> coh H ct (heap s) ->
+  forall a c, cell_at s a = Some c -> k_cid c = content_id H ct current (reify_st s a).
+Proof. exact cid_is_content_id. Qed.
+Theorem C14_dup_cid : forall H ct late fuel s a s' a' c c', Inv0 s -> coh H ct (heap s) ->
+  dup H ct late fuel s a = DOk s' a' -> cell_at s a = Some c -> cell_at s' a' = Some c' ->
+  k_cid c' = k_cid c /\ k_cls c' = k_cls c /\ k_org c' = k_org c /\ k_props c' = k_props c.
+Proof. exact dup_cid. Qed.
+Example C14_ex_dup_eq : exists s' a', dup ex_H ex_ct no_late (length (heap ex_state)) ex_state 2 = DOk s' a'
+  /\ Inv0 ex_state /\ coh ex_H ex_ct (heap ex_state) /\ wf_node ex_ct (reify_st ex_state 2) = true
+  /\ size (reify_st ex_state 2) = 3 /\ addr (reify_st s' a') = 5
+  /\ eqn ex_H ex_ct current (reify_st s' a') (reify_st ex_state 2) = EqTrue.
+Proof.
+  eexists _, _. split; [vm_compute; reflexivity|]. split; [exact (proj1 ex_state_inv)|].
+  split; [exact (run_coh ex_H ex_ct no_late true ex_ops _ (coh_init ex_H ex_ct 4))|]. vm_compute. repeat split.
+Qed.
+(* NOT proved (gap): that the machine's own `node_eq` (the == the run prints for every Dup, Model/Registry.v) is `eqn` on
+   the reified trees - it needs the shape discipline (ShNone <-> no child, ShOne <-> one) as a further invariant. *)
 
 (* ---- replace (both kinds): same class; changed fields hold the given values, every other field holds what
         the original holds - children by address, i.e. the very same objects ---- *)
